@@ -22,7 +22,7 @@ for rj in sorted(glob.glob('/var/tmp/seed-C*-out/*/RESULT.json')):
       "seed": key,
       "origin": "written by a fresh sub-agent that was given only the property text and a scratch worktree of /repo (nothing from /verif)",
       "breaks": readme.strip().splitlines()[0][:300] if readme.strip() else "",
-      "needs_to_manifest": NOTES.get(key,{}).get("needs",""),
+      "needs_to_manifest": NOTES.get(key,{}).get("needs","") or ((re.search(r"^needs:\s*(.*)$", readme, re.M) or [None,""])[1]),
       "confirmed": {"applies_to_repo_head": head, "builds": True, "existing_suite_passes_with_change": True,
                     "demo_fails_with_change": True, "demo_passes_without_change": True,
                     "how": "tools/seedtest.py in a scratch worktree of /repo HEAD: git apply patch.diff; go build ./...; go test -vet=off -count=1 ./... (must pass); demo copied in and run (must fail); VERIF_REPO=<worktree> dev.sh <check> quick; git checkout; demo run again (must pass); worktree removed"},
